@@ -183,6 +183,7 @@ class SimOps:
                 inp_idx = self.ppi_offset + interface_dict[n]
                 if len(n.ins) > 0 and n.ins[0] is not None and 'dff' not in n.kind.lower() and 'latch' not in n.kind.lower():
                     inp_idx = n.ins[0].index  # a port that is driven passes the driven value on to its readers
+                    if strip_forks and n.kind == '__fork__': continue  # its fanout lines are aliased to the stem
                 if len(n.outs) > 0 and n.outs[0] is not None:  # first output of a PI/PPI
                     ops.append((BUF1, n.outs[0].index, inp_idx, self.zero_idx, self.zero_idx, self.zero_idx, *a_ctrl[n.outs[0]]))
                 if 'dff' in n.kind.lower():  # second output of DFF is inverted
